@@ -721,6 +721,7 @@ PrC11_StoreMatches == Pr!C11_StoreMatches
 PrC11_RejectAfter == Pr!C11_RejectAfter
 PrC11_GracefulRunsOut == Pr!C11_GracefulRunsOut
 PrC11_ForcedCancels == Pr!C11_ForcedCancels
+PrC11_ForcedStops == Pr!C11_ForcedStops
 PrC11_PersistWithinInterval == Pr!C11_PersistWithinInterval
 PrC12_KeepsUnfinished == Pr!C12_KeepsUnfinished
 PrC12_NoSettingsNoRemoval == Pr!C12_NoSettingsNoRemoval
